@@ -392,6 +392,12 @@ def check_chain(case):
     return {"nontrivial": rotated, "labels": ["rotated" if rotated else "same-keys", "default-times" if case["omit_times"] else "explicit-times"]}
 
 
+def _no_crowd(case):
+    """keep the 1000+-key roles out of the quadratic interruption sweeps (they are in every other unit)"""
+    d = case["args"].get("delegations")
+    return not isinstance(d, dict) or all(len(v.get("pubkeys", ())) < 50 for v in d.values() if isinstance(v, dict) and isinstance(v.get("pubkeys", ()), (list, tuple)))
+
+
 UNITS = [
     Unit("valid", check_valid, strategy=_valid, quick=1200, thorough=40000,
          essential=["root", "delegating", "exp<=ts", "omitted=2", "tz=non-UTC"], doc="valid argument tuples: faithful, well-formed output"),
@@ -402,9 +408,9 @@ UNITS = [
          essential=["rotated"], doc="builder -> signer -> verifier: three-link root chains and key_mgr delegation"),
     _cfgunit.unit_under_config(PROPERTY, 'valid', exclude=('PYTHONWARNINGS', 'TZ')),
     _cfgunit.unit_under_config(PROPERTY, 'corrupt', exclude=('PYTHONWARNINGS',), closed_stdout=True, n_cases=30),
-    _interrupt.unit_interrupted(PROPERTY, 'corrupt', quick=30, thorough=750, max_points=120),
+    _interrupt.unit_interrupted(PROPERTY, 'corrupt', quick=30, thorough=750, max_points=120, filter_case=_no_crowd),
     _interfere.unit_after(PROPERTY, 'corrupt', quick=150, thorough=6000),
     _interfere.unit_after(PROPERTY, 'valid', quick=150, thorough=6000),
-    _interrupt.unit_interrupted(PROPERTY, 'valid', quick=18, thorough=450, max_points=150),
+    _interrupt.unit_interrupted(PROPERTY, 'valid', quick=18, thorough=450, max_points=150, filter_case=_no_crowd),
     _cfgunit.unit_under_clocks(PROPERTY, 'valid'),
 ]
